@@ -843,8 +843,9 @@ func (x *Exec) callByContract(fi *FuncInfo, fc *FuncContract, call *ast.CallExpr
 			var as []Term
 			var sorts []Sort
 			if sig.Recv() != nil {
-				as = append(as, recv)
-				sorts = append(sorts, recv.Sort)
+				rr := x.eraseNoRead(fi, recv)
+				as = append(as, rr)
+				sorts = append(sorts, rr.Sort)
 			}
 			for _, a := range args {
 				as = append(as, a)
@@ -866,7 +867,19 @@ func (x *Exec) callByContract(fi *FuncInfo, fc *FuncContract, call *ast.CallExpr
 		}
 	}
 	for _, c := range fc.Ensures {
-		x.assume(env, post.EvalBool(c.Expr))
+		func() {
+			defer func() {
+				if r := recover(); r != nil {
+					if us, ok := r.(Unsupported); ok && strings.Contains(us.Msg, "unknown name") {
+						// the clause speaks about a local of the callee: not usable at a call site (assume less)
+						x.W.Note("ensures clause of " + fi.Key + " not usable at call sites: " + us.Msg)
+						return
+					}
+					panic(r)
+				}
+			}()
+			x.assume(env, post.EvalBool(c.Expr))
+		}()
 	}
 	return results
 }
